@@ -433,6 +433,24 @@ func c11RabinScenarioV(c *kc.Ctx, mock bool, n, t int, faults map[int]string, vi
 				viol("agreement:forged-unsigned-justification", fmt.Sprintf("honest nodes %d and %d output different QUAL (%v vs %v): a verifier complained falsely about an honest dealer and broadcast, in the dealer's name, an unsigned justification revealing a wrong share; nodes that see it before the dealer's answer mark the dealer bad for good", ref.n.i, o.n.i, ref.qual, o.qual))
 				return
 			}
+			// is the difference confined to a dealer about which a colluding participant equivocated?
+			equivOnly := fmt.Sprint(o.qual) != fmt.Sprint(ref.qual)
+			for q, on := range diff {
+				if !on {
+					continue
+				}
+				named := false
+				for _, f := range nodes {
+					if f.fault == "equivocate" && uint32(f.victim) == q && nodes[q].fault == "badShareMany" {
+						named = true
+					}
+				}
+				equivOnly = equivOnly && named
+			}
+			if equivOnly {
+				viol("agreement:conflicting-responses-first-wins", fmt.Sprintf("honest nodes %d and %d output different QUAL (%v vs %v): a faulty dealer keeps exactly t-1 approvals and a colluding participant signs both an approval and a complaint about its deal; every node keeps whichever it receives first", ref.n.i, o.n.i, ref.qual, o.qual))
+				return
+			}
 			viol("agreement", fmt.Sprintf("honest nodes %d and %d output different QUAL / commitments (%v vs %v)", ref.n.i, o.n.i, ref.qual, o.qual))
 			return
 		}
